@@ -7,6 +7,8 @@ TECH = 'bounded symbolic execution of clang LLVM IR (xsym: guarded SSA, concrete
 CLAIMS = {
  'C01': dict(text='Bounded, solver-decided: for 2-3 threads, K rounds of solver-chosen context switches and the listed reclaimer instantiations, no execution of the reader/writer client dereferences, double-frees or invalidly frees a node (engine lifetime oracle on every access). quick: hazard_pointer and lock_free_ref_count; thorough: all twelve configurations, K=3, third scanning thread.',
              note='SC interleavings only; <= K*T-1 context switches; one shared cell, <= 2 retirements; std algorithm stubs (harness/common/std_stubs.h); fresh addresses (no reuse); loop bound U with unwinding assertions reported per scenario', ref='4 C01'),
+ 'C10': dict(text='PARTIAL, bounded, solver-decided: with all keys colliding in one bucket (slots + extension items): sequentially one update with a symbolic key (erase / extract / emplace) followed by a lock-free lookup of a symbolic key vs a reference map; concurrently a lock-free try_get_value of a key present throughout vs erase/extract of another key of the same bucket with symbolic context switches (K=2-3).',
+             note='trivial keys/values, no grow, no traversal (those exceed the engine), epoch based reclaimer; the seeded C10 change (no version bump when unlinking an extension item) is NOT detected by these scenarios', ref='10.2 C10'),
  'C12': dict(text='Bounded, solver-decided: sequential operation sequences (symbolic ops) from an arbitrary 62-bit index offset incl. growth agree with a reference deque; owner/thief interleavings (K=2,3) hand out every item exactly once. One genuine finding (F2) is listed in known_findings.txt.',
              note='offsets < 2^62; <= 5 symbolic ops; 2 threads (3 in thorough); SC only', ref='4 C12'),
  'C14': dict(text='Bounded, solver-decided: store/update/load round trips for element sizes 12-24 bytes and slots 1-3 with symbolic contents; writer/reader interleavings (K=2,3): every load equals a written value in all bytes and loads are monotone.',
